@@ -65,14 +65,70 @@ def wBytes (e : Env) : W → String
 
 def toksOf (s : String) : List Tok := Spec.Tokenize.tokens [[32]] (s.toUTF8.toList.map (·.toNat))
 
-/-- Tokens of a written value. `decset`/`decrst` are mapped directly (their printed form lexes to
-    exactly these tokens — `Props.C04.decset_lexes`), everything else is lexed from its bytes. -/
-def wToks (e : Env) : W → List Tok
-  | .decset n => [.decset n]
-  | .decrst n => [.decrst n]
-  | w => toksOf (wBytes e w)
+/-! ### Run-time values are kept symbolic
 
-/-- Writer + cursor state threaded through the statements. -/
+The statement lists are interpreted into `Item`s: ordinary tokens, and *named holes* for the few
+sequences whose payload is a run-time value (kitty keyboard flags, the queried user cursor style,
+the saved application id, the cursor the application asked for).  `inst` fills the holes.  The
+interpreter (`interpS`) never sees a run-time value: it is uniform in them by construction, which is
+what the C04 theorems over all values rest on. -/
+
+/-- Go expressions (argument source text) whose value is only known at run time. -/
+def runtimeArgs : List String := ["vx.kittyFlags", "int(vx.userCursorStyle)", "vx.appIDLast"]
+
+inductive Item where
+  | tok (k : Tok)
+  | kittyPush                      -- `tparm(kittyKBEnable, vx.kittyFlags)`           CSI > flags u
+  | userStyle                      -- `tparm(cursorStyleSet, int(vx.userCursorStyle))` CSI n SP q
+  | appIdRestore                   -- `tparm(setAppID, vx.appIDLast)`                  OSC 176 ; id ST
+  | showCursor                     -- `vx.showCursor()` of the writer's epilogue: style, position, DECSET 25
+  | cursorOnly (clUser : Bool)     -- cursor-only flush with the cursor requested: written iff position/style differ
+  | opaqueW (w : W)                 -- a write that mentions a run-time value in a shape not recognised
+  deriving Repr, DecidableEq, Inhabited
+
+/-- Lower-case hex digits of a byte list (the form in which `Spec.Tokenize` reports `Tok.other`). -/
+def hexDigit (k : Nat) : Char := if k < 10 then Char.ofNat (48 + k) else Char.ofNat (87 + k)
+def hexChars (bs : List Nat) : List Char := bs.flatMap fun b => [hexDigit (b / 16 % 16), hexDigit (b % 16)]
+def bytesOf (s : String) : List Nat := s.toUTF8.toList.map (·.toNat)
+
+/-- The token of `CSI > flags u`. -/
+def kittyPushRaw (flags : Nat) : String :=
+  String.ofList (['1', 'b', '5', 'b', '3', 'e'] ++ hexChars (bytesOf (toString flags)) ++ ['7', '5'])
+/-- The token of `OSC 176 ; id ST`. -/
+def appIdSetRaw (id : String) : String :=
+  String.ofList (['1', 'b', '5', 'd', '3', '1', '3', '7', '3', '6', '3', 'b'] ++ hexChars (bytesOf id))
+
+/-- Classify a written value.  `decset`/`decrst` and the three recognised run-time writes are mapped
+    directly (their printed forms lex to exactly these tokens: `Props.C04.decset_lexes`,
+    `kittyPush_lexes`, `userStyle_lexes`, `appIdRestore_lexes`, and the correspondence run on real
+    values); everything else is lexed from its bytes. -/
+def itemsOf : W → List Item
+  | .decset n => [.tok (.decset n)]
+  | .decrst n => [.tok (.decrst n)]
+  | .tparm name f args =>
+      if f = "\x1b[>%du" ∧ args = ["vx.kittyFlags"] then [.kittyPush]
+      else if f = "\x1b[%d q" ∧ args = ["int(vx.userCursorStyle)"] then [.userStyle]
+      else if f = "\x1b]176;%s\x1b\\" ∧ args = ["vx.appIDLast"] then [.appIdRestore]
+      else if args.any (fun a => runtimeArgs.contains a) then [.opaqueW (.tparm name f args)]
+      else (toksOf (wBytes default (.tparm name f args))).map .tok
+  | w => (toksOf (wBytes default w)).map .tok
+
+/-- Fill the holes: `cn` / `cl` are `cursorNext` / `cursorLast` as the application left them. -/
+def inst (e : Env) (cn cl : CursorState) : Item → List Tok
+  | .tok k => [k]
+  | .kittyPush => [.other (kittyPushRaw e.kittyFlags)]
+  | .userStyle => [.cursorStyle e.userCursorStyle]
+  | .appIdRestore => [.other (appIdSetRaw e.appId)]
+  | .showCursor => Render.showCursorToks cn
+  | .cursorOnly clUser =>
+      if cn.row ≠ cl.row ∨ cn.col ≠ cl.col ∨ cn.style ≠ (if clUser then e.userCursorStyle else cl.style)
+      then Render.showCursorToks cn else []
+  | .opaqueW w => toksOf (wBytes e w)
+
+/-- Tokens of a written value. -/
+def wToks (e : Env) (w : W) : List Tok := (itemsOf w).flatMap (inst e default default)
+
+/-- Writer + cursor state threaded through the statements (concrete view). -/
 structure WSt where
   buf : List Tok := []          -- buffered tokens (since the last flush)
   wire : List Tok := []         -- what reached the console so far
@@ -86,15 +142,41 @@ structure WSt where
                                 -- epilogue path
   deriving Inhabited
 
+/-- The same state with run-time values abstracted: only the visibility flags of the two cursor
+    records and whether `cursorLast.style` was overwritten with the user style are tracked. -/
+structure SSt where
+  buf : List Item := []
+  wire : List Item := []
+  cnv : Bool := false           -- cursorNext.visible
+  clv : Bool := false           -- cursorLast.visible
+  clUser : Bool := false        -- cursorLast.style = vx.userCursorStyle has been executed
+  suspended : Bool := false
+  closed : Bool := false
+  fresh : Bool := true
+  deriving Inhabited, DecidableEq, Repr
+
 def capsOf (e : Env) : Caps := { sync := e.v "caps.synchronizedUpdate" }
 
-def doFlush (e : Env) (w : WSt) : WSt :=
+/-- `writer.Flush` (cf. `Render.flush`) on items. -/
+def doFlushS (sync : Bool) (w : SSt) : SSt :=
   if w.fresh then
-    { w with wire := w.wire ++ w.buf ++ [Tok.sgr []] ++
-                (if w.cn.visible ∧ w.cl.visible then Render.showCursorToks w.cn else []) ++
-                (if (capsOf e).sync then [Tok.decrst 2026] else []),
+    { w with wire := w.wire ++ w.buf ++ [.tok (Tok.sgr [])] ++
+                (if w.cnv ∧ w.clv then [Item.showCursor] else []) ++
+                (if sync then [.tok (Tok.decrst 2026)] else []),
              buf := [], fresh := false }
-  else { w with wire := w.wire ++ flush (capsOf e) w.cn w.cl w.buf, buf := [] }
+  else if w.buf.isEmpty then
+    { w with wire := w.wire ++
+        (if ¬ w.cnv ∧ w.clv then [.tok (Tok.decrst 25)]
+         else if ¬ w.cnv then []
+         else [Item.cursorOnly w.clUser]) }
+  else
+    { w with buf := [],
+             wire := w.wire ++
+                (if w.clv then [.tok (Tok.decrst 25)] else []) ++
+                (if sync then [.tok (Tok.decset 2026)] else []) ++
+                w.buf ++ [.tok (Tok.sgr [])] ++
+                (if w.cnv ∧ w.clv then [Item.showCursor] else []) ++
+                (if sync then [.tok (Tok.decrst 2026)] else []) }
 
 def table (name : String) : Option (List S) :=
   if name = "disableModes" then some disableModes
@@ -102,53 +184,84 @@ def table (name : String) : Option (List S) :=
   else if name = "enterAltScreen" then some enterAltScreen
   else if name = "exitAltScreen" then some exitAltScreen
   else if name = "Suspend" then some suspend
+  else if name = "Close" then some close
   else none
+
+def evalV (v : String → Bool) : G → Bool
+  | .tt => true
+  | .v n => v n
+  | .not g => !evalV v g
+  | .and a b => evalV v a && evalV v b
+  | .or a b => evalV v a || evalV v b
+
+/-- Guards may read Vaxis's own two state flags (`if vx.closed {…}`, `if vx.suspended {…}`). -/
+def guardEnv (v0 : String → Bool) (w : SSt) : String → Bool :=
+  fun n => if n = "closed" then w.closed else if n = "suspended" then w.suspended else v0 n
 
 /-- Interpret a statement list. `fuel` bounds the number of statements along any path (structural
     recursion on it; 64 is far more than the longest function). -/
-def interp (e : Env) : Nat → List S → WSt → WSt
+def interpS (v0 : String → Bool) : Nat → List S → SSt → SSt
   | 0, _, w => w
   | _ + 1, [], w => w
   | fuel + 1, s :: rest, w =>
-    -- an early `return` under a true guard ends the function; such guards read Vaxis's own two
-    -- state flags (`if vx.closed { return }`, `if vx.suspended { return nil }`)
+    let v : String → Bool := guardEnv v0 w
+    -- a `return` under a true guard ends the function
     if (match s with
-        | .other (.v "suspended") src => w.suspended && src.startsWith "return"
-        | .other (.v "closed") src => w.closed && src.startsWith "return"
+        | .other g src => src.startsWith "return" && evalV v g
         | _ => false) then w else
-    let w' : WSt :=
+    let w' : SSt :=
       match s with
-      | .write g x => if evalG e g then { w with buf := w.buf ++ wToks e x } else w
-      | .writeF g x => if evalG e g then { w with buf := w.buf ++ wToks e x } else w
-      | .direct g x => if evalG e g then { w with wire := w.wire ++ wToks e x } else w
-      | .flush g => if evalG e g then doFlush e w else w
+      | .write g x => if evalV v g then { w with buf := w.buf ++ itemsOf x } else w
+      | .writeF g x => if evalV v g then { w with buf := w.buf ++ itemsOf x } else w
+      | .direct g x => if evalV v g then { w with wire := w.wire ++ itemsOf x } else w
+      | .flush g => if evalV v g then doFlushS (v "caps.synchronizedUpdate") w else w
       | .call g f =>
-          if !evalG e g then w
-          else if f = "HideCursor" then { w with cn := { w.cn with visible := false } }
+          if !evalV v g then w
+          else if f = "HideCursor" then { w with cnv := false }
           else match table f with
-            | some body => interp e fuel body w
+            | some body => interpS v0 fuel body w
             | none => w                                  -- parser.Close, console.Reset, mu.Lock, …: no output
-      | .deferCall _ => w                                -- handled by the caller (`sendQueriesToks`)
+      | .deferCall _ => w                                -- handled by the caller (`sendQueriesS`)
       | .other _ src =>
           -- the one statement with output that is not a plain write: CursorPosition() sends DSR directly
-          if src = "_, col := vx.CursorPosition()" then { w with wire := w.wire ++ toksOf "\x1b[6n" }
-          else if src = "vx.cursorLast.style = vx.userCursorStyle" then { w with cl := { w.cl with style := e.userCursorStyle } }
+          if src = "_, col := vx.CursorPosition()" then { w with wire := w.wire ++ (toksOf "\x1b[6n").map .tok }
+          else if src = "vx.cursorLast.style = vx.userCursorStyle" then { w with clUser := true }
           else if src = "err := vx.openTty(tgts)" then { w with fresh := true }     -- openTty calls newWriter
           else if src = "vx.suspended = true" then { w with suspended := true }
           else if src = "vx.suspended = false" then { w with suspended := false }
           else if src = "vx.closed = true" then { w with closed := true }
           else w
-    interp e fuel rest w'
+    interpS v0 fuel rest w'
+
+def absW (w : WSt) : SSt :=
+  { buf := w.buf.map .tok, wire := w.wire.map .tok, cnv := w.cn.visible, clv := w.cl.visible, clUser := false,
+    suspended := w.suspended, closed := w.closed, fresh := w.fresh }
+
+/-- Back to the concrete view: holes filled with the values of `e` and of the cursor records of `w0`. -/
+def concW (e : Env) (w0 : WSt) (s : SSt) : WSt :=
+  { buf := s.buf.flatMap (inst e w0.cn w0.cl), wire := s.wire.flatMap (inst e w0.cn w0.cl),
+    cn := { w0.cn with visible := s.cnv },
+    cl := { w0.cl with visible := s.clv, style := if s.clUser then e.userCursorStyle else w0.cl.style },
+    suspended := s.suspended, closed := s.closed, fresh := s.fresh }
+
+def doFlush (e : Env) (w : WSt) : WSt := concW e w (doFlushS (e.v "caps.synchronizedUpdate") (absW w))
+
+/-- The interpreter on concrete states: abstract, interpret, fill the holes. -/
+def interp (e : Env) (fuel : Nat) (l : List S) (w : WSt) : WSt := concW e w (interpS e.v fuel l (absW w))
 
 /-- `sendQueries`: its statements, then the deferred `exitAltScreen`. Capabilities are still unknown
     (all guards false, no sync) while it runs. -/
-def sendQueriesW (w : WSt) : WSt :=
-  let e0 : Env := { v := fun _ => false }
-  interp e0 64 exitAltScreen (interp e0 64 sendQueries w)
+def sendQueriesS (w : SSt) : SSt :=
+  let v0 : String → Bool := fun _ => false
+  interpS v0 64 exitAltScreen (interpS v0 64 sendQueries w)
+
+def sendQueriesW (w : WSt) : WSt := concW { v := fun _ => false } w (sendQueriesS (absW w))
 
 /-- Everything `New` writes (graphics / size queries via xtwinops excluded: environment driven). -/
-def startupW (e : Env) : WSt :=
-  interp e 64 enableModes (interp e 64 enterAltScreen (sendQueriesW {}))
+def startupS (v : String → Bool) : SSt :=
+  interpS v 64 enableModes (interpS v 64 enterAltScreen (sendQueriesS {}))
+
+def startupW (e : Env) : WSt := concW e {} (startupS e.v)
 
 def suspendW (e : Env) (w : WSt) : WSt := interp e 64 suspend w
 def resumeW (e : Env) (w : WSt) : WSt := interp e 64 resume w
